@@ -94,6 +94,7 @@ def worker(args, scratch):
             prev = sh.call("kk_snapshot")
             prev_policy = policy_map(vdir)
             last_reported = None
+            maybe_acted_on = set()     # states reported in polls that failed part-way since the last complete poll: the agent may have acted on them (retry policy is its own)
             steps = r.randrange(3, args["max_steps"])
             feats = set()
             for step in range(steps):
@@ -172,6 +173,7 @@ def worker(args, scratch):
                         res["violations"].append(["failed-status-poll-contacted-key-endpoints", wit])
                 elif used_fault:
                     bump("polls_with_partial_failure")
+                    maybe_acted_on.add(reported_state(ws))
                     if snap["key_value"] is not None and snap["key_value"] not in ws.issued.values():
                         res["violations"].append(["key-not-issued-by-host", wit])
                 else:
@@ -201,13 +203,22 @@ def worker(args, scratch):
                         if snap["state"] in ("disabled", "Unknown"):
                             res["violations"].append(["state-disabled-or-unknown-while-channel-enabled", wit])
                     em = expected_modes(ws)
-                    if reported_state(ws) != last_reported:
+                    matches = {k: pol.get(k) for k in em} == em and "unexpected_keys" not in pol
+                    if reported_state(ws) != last_reported and reported_state(ws) not in maybe_acted_on:
                         bump("polls_with_reported_state_change")
-                        if {k: pol.get(k) for k in em} != em or "unexpected_keys" in pol:
+                        if not matches:
+                            res["violations"].append(["redirect-policy-does-not-match-modes-after-state-change", dict(wit, expected=em)])
+                    elif maybe_acted_on - {last_reported}:
+                        # between the last complete poll and this one the host reported other states in polls that failed part-way
+                        # (acquire/attest): whether the agent acted on those (e.g. by retrying the failed step) is not fixed by the
+                        # statement, so it may see a change now or not - either it leaves the policy alone or it sets it to the modes
+                        bump("polls_after_partial_failures_with_ambiguous_state_change")
+                        if pol != prev_policy and not matches:
                             res["violations"].append(["redirect-policy-does-not-match-modes-after-state-change", dict(wit, expected=em)])
                     elif pol != prev_policy:
                         res["violations"].append(["redirect-policy-changed-without-state-change", dict(wit, before=prev_policy)])
                     last_reported = reported_state(ws)
+                    maybe_acted_on.clear()
                 if snap["state"] != prev["state"]:
                     bump("state_changes")
                 prev, prev_policy = snap, pol
